@@ -285,10 +285,14 @@ impl Exec {
         let log = new_log();
         let r = catch_unwind(AssertUnwindSafe(|| -> Result<HandshakeState, Error> {
             let params: NoiseParams = spec.name.parse()?;
-            let inner = resolver_from_expr(&spec.resolver).expect("bad resolver expression");
-            let resolver =
-                SessionResolver { inner, rng_stream: Some(spec.rng.clone()), log: log.clone() };
-            let mut b = Builder::with_resolver(params, Box::new(resolver));
+            let mut b = if spec.resolver == "new" {
+                // snow's own choice of resolver (`Builder::new`): no recording, no scripted randomness
+                Builder::new(params)
+            } else {
+                let inner = resolver_from_expr(&spec.resolver).expect("bad resolver expression");
+                let resolver = SessionResolver { inner, rng_stream: Some(spec.rng.clone()), log: log.clone() };
+                Builder::with_resolver(params, Box::new(resolver))
+            };
             if let Some(s) = &spec.s {
                 b = b.local_private_key(s)?;
             }
